@@ -43,6 +43,12 @@ CLAIMED = {
         text="Tens of thousands of value trees built from format-significant strings, numeric extremes, non-finite floats, quoting-hostile keys and nested empties are converted by the real converters (directly, through convert expressions and through `out` with the real CLI) and read back by decoders that share no code with serde; nesting, order, key sets, strings and exact numeric values must agree, and values the format cannot carry must be errors.",
         note="Trusted: the independent decoders; my YAML 1.2 core-schema resolver (scalars on which 1.1 and 1.2 differ are counted). TOML arrays mixing types or nesting tables: error or exact round trip both accepted.",
         design="DESIGN.md section 4, C03"),
+    "C12": dict(
+        engine="probe",
+        technique="runtime monitor: round-trip oracle through expat (xml.etree, namespace-aware) against the tree computed from the document tuple by the documented DSL rules; must-fail table for malformed documents",
+        text="Thousands of generated document tuples (elements, bare and {text=} text nodes, attributes and text full of markup-significant and whitespace characters, default/prefixed namespaces incl. shadowing, NULL attrs/children, declaration fields in any order) are written by the real xml converter and parsed by expat; resolved names, attributes, in-force namespace bindings, child order and text must match; every malformed-document kind must be an error; a sample goes through std/xml.ucg and `out xml` with the CLI. All differences of a document are reported, so a listed dependency defect cannot hide a new one.",
+        note="Trusted: expat; my reading of the DSL in reference/converters.md. Whitespace-only text segments are ignored on both sides because the writer indents; XML-illegal characters are not generated.",
+        design="DESIGN.md section 4, C12"),
     "C15": dict(
         engine="probe",
         technique="runtime monitor: differential against independent decoders on Python-generated documents and their corruptions; strict decoder decides accept/reject, exclusions counted",
